@@ -275,7 +275,7 @@ pub fn check(ctx: &Ctx) -> Vec<PartReport> {
             require: vec![],
         },
     ));
-    let n = ctx.cases(4_000, 250_000);
+    let n = ctx.cases(16_000, 250_000);
     out.push(run_part(
         ctx,
         PartSpec {
